@@ -15,4 +15,16 @@ CHECKS = {
   "note": "Trusted: Coq kernel + vm_compute; the hand-written models; the scheduler and virtual primitives (CPython semantics of Lock/Condition/Event/Future); thread-locality of code between logged operations; the stdlib thread pool is replaced by a managed pool with max_workers threads. Process executors are not scheduled. No axioms.",
   "design_ref": "DESIGN.md section 5 C08",
  },
+ "C01": {
+  "technique": "Coq proof (inductive invariant over all schedules of the feeder/consumer/pool model) + trace validation of the real fifo_stream/Parmapper under a deterministic scheduler",
+  "text": "Theorems for every capacity, pool size, source, outcome table, preprocessor, flags, stop position and every interleaving / completion order: the outputs handed to the consumer are exactly [(0, outcome 0); ...; (k-1, outcome (k-1))] - one per input, in input order, each the function of its own input - and no exception object is delivered unless return_exceptions. The model is tied to the code by trace validation on every run (real threads under a deterministic scheduler, each logged run replayed event by event in Coq); an independent oracle recomputes expected outputs, checks completeness at the end of the iteration and that no element is submitted twice.",
+  "note": "Partial: completeness-at-termination and call-once are checked by the oracle on explored runs, their theorems are _todo. Trusted: Coq kernel + vm_compute, the hand-written model, scheduler + virtual primitives, thread-locality between logged operations; process executors not scheduled. No axioms.",
+  "design_ref": "DESIGN.md section 5 C01",
+ },
+ "C05": {
+  "technique": "Coq proof of the cleanup invariant + vm_compute refutation witnesses for the hanging configurations + trace validation and hang classification of the real code under a deterministic scheduler",
+  "text": "Proved for all schedules: a closed iterator (Buffer, fifo_stream/Parmapper) has no live helper thread; failures are delivered in stream order (C01 theorems). The 'nothing blocks forever' clause is refuted on the current tree for buffer(1)/(2) with early stop and for sources raising StopRequested (witness schedules as _refuted theorems; recorded as known findings, replayed on the implementation). For all other configurations hang-freedom rests on the deterministic scheduler's classification of every explored run (deadlock = no enabled thread), tied to the model by trace validation.",
+  "note": "Partial: deadlock-freedom theorems for the non-refuted configurations are _todo; AsyncBuffer/SyncIter/ParmapperAsync and process pools are not scheduled. Trusted as for C01. No axioms.",
+  "design_ref": "DESIGN.md section 5 C05",
+ },
 }
